@@ -291,7 +291,8 @@ def lines_agree(impl, model, ignore=(), only=None):
             continue
         if k in AGE_KEYS and LAST_ELAPSED[0] >= 0.5:
             try:
-                if 0 <= int(va) - int(vb) <= int(LAST_ELAPSED[0] + 0.5):
+                pa, pb = str(va).split("/"), str(vb).split("/")         # cprage is a pair "even/odd"
+                if len(pa) == len(pb) and all(0 <= int(x) - int(y) <= int(LAST_ELAPSED[0] + 0.5) for x, y in zip(pa, pb)):
                     continue
             except (TypeError, ValueError):
                 pass
